@@ -152,9 +152,9 @@ Section Refine.
   (* "run this block, then the statement's value is 空" *)
   Lemma rel_then_null st0 (r : res val) (o : ores) :
     wf st0 -> bal_s st0 r -> rel_b r o ->
-    rel (let! (_, s2) := r in Ok VNull s2) (seq o (fun _ s => OR (ONormal VNull) s)).
+    rel (let! (_, s2) := r in Ok VNull s2) (oseq o (fun _ s => OR (ONormal VNull) s)).
   Proof.
-    intros W Hbl Hr. destruct o as [[v|v| | |e] s2| |w]; cbn [rel_b rel] in Hr; cbn [seq].
+    intros W Hbl Hr. destruct o as [[v|v| | |e] s2| |w]; cbn [rel_b rel] in Hr; cbn [oseq].
     - destruct Hr as [-> T]. cbn. split; [reflexivity|exact T].
     - destruct Hr as [-> T]. cbn. split; [eauto|exact T].
     - destruct Hr as [-> T]. cbn. split; [reflexivity|exact T].
@@ -193,7 +193,7 @@ Section Refine.
         assert (Tl : top_ret (set_line st line) = None) by (rewrite top_ret_set_line; exact T).
         pose proof (He (set_line st line) s Wl Tl) as Hr.
         pose proof (Hbal (set_line st line) s) as Hb.
-        destruct (oexec (set_line st line) s) as [[v|v| | |e] s2| |w]; cbn [rel] in Hr; cbn [seq].
+        destruct (oexec (set_line st line) s) as [[v|v| | |e] s2| |w]; cbn [rel] in Hr; cbn [oseq].
         * destruct Hr as [Hr T2]. rewrite Hr. cbn [bind]. rewrite T2. apply IH; [|exact T2].
           exact (s_ok_wf _ _ v s2 Wl Hb Hr).
         * destruct Hr as [[v' Hr] T2]. rewrite Hr. cbn [bind].
